@@ -109,12 +109,13 @@ func (node *Map) Typecheck(ctx context.Context, env physical.Environment, logica
 		} else {
 			name = fmt.Sprintf("col_%d", i)
 		}
-		existingCount := existingFields[name]
-		if existingCount > 0 {
-			// We don't want duplicate field names.
-			name = fmt.Sprintf("%s_%d", name, existingCount)
+		// We don't want duplicate field names.
+		baseName := name
+		for existingFields[name] > 0 {
+			name = fmt.Sprintf("%s_%d", baseName, existingFields[baseName])
+			existingFields[baseName]++
 		}
-		existingFields[name] = existingCount + 1
+		existingFields[name]++
 
 		unique := logicalEnv.GetUnique(name)
 		outMapping[name] = unique
